@@ -219,6 +219,27 @@ def gen_k3(rng, i, tier):
                 pseed=int(rng.integers(2 ** 31)))
 
 
+def k3_feature_points(xd, R, w):
+    """points where the geometry of the obstacle problem changes character, in the plane spanned by the detonator
+    direction and the unit vector w normal to it: rings hugging the obstacle all the way round, and fans of points on
+    both sides of the two shadow-boundary rays (the tangents from the detonator), from the tangent point outwards"""
+    lod = float(np.linalg.norm(xd))
+    ed = xd / lod
+    out = [R * (1.0 + e_) * (math.cos(a_) * ed + math.sin(a_) * w)
+           for e_ in (1e-9, 1e-3, 0.05, 0.3) for a_ in np.linspace(0.0, 2 * math.pi, 36, endpoint=False) + 0.013]
+    psi = math.acos(R / lod)
+    for sg in (1.0, -1.0):
+        a_t = R * (math.cos(psi) * ed + sg * math.sin(psi) * w)
+        tdir = (a_t - xd) / np.linalg.norm(a_t - xd)
+        nrm = a_t / R
+        for sl in (1e-3, 1e-2, 0.05, 0.2, 0.6, 1.5, 4.0):
+            for dl in (-0.1, -3e-2, -1e-3, -1e-6, 1e-6, 1e-3, 3e-2, 0.1):
+                q = a_t + tdir * sl * R + nrm * dl * R * (1.0 + sl)
+                if np.linalg.norm(q) > R * (1.0 + 1e-12):
+                    out.append(q)
+    return np.array(out)
+
+
 def run_k3(ctx, p):
     from exactpack.solvers.kenamond import Kenamond3
     g, R, D, td = p["geometry"], p["R"], p["D"], p["t_d"]
@@ -252,8 +273,7 @@ def run_k3(ctx, p):
     shadow = np.array([a_t + tdir * sl * R for sl in (1e-3, 0.1, 1.0, 5.0)])
     # points hugging the obstacle all the way round (in the plane of the detonator, the centre and w): the shadow
     # boundary, the plane through the centre normal to the detonator direction and the antipode are all crossed
-    hug = np.array([R * (1.0 + e_) * (math.cos(a_) * ed + math.sin(a_) * w)
-                    for e_ in (1e-9, 1e-3, 0.05, 0.3) for a_ in np.linspace(0.0, 2 * math.pi, 36, endpoint=False) + 0.013])
+    hug = k3_feature_points(xd, R, w)
     pts = np.vstack([box, anti, near_anti, shadow + nrm * 1e-9 * R, hug])
     T = T_of(ctx, s, pts)
     finite(ctx, name, T, pts, br)
